@@ -273,6 +273,25 @@ class Executor(ExprMixin, StmtMixin, LoopMixin):
                 self.old_state = save
         if isinstance(fnode, ast.Name) and fnode.id in SPEC_FORMS and self.spec_mode and fnode.id not in st.env:
             return SPEC_FORMS[fnode.id](self, node, st)
+        if (
+            isinstance(fnode, ast.Attribute) and fnode.attr in MUTATORS and isinstance(fnode.value, ast.Call)
+            and isinstance(fnode.value.func, ast.Attribute) and fnode.value.func.attr == "setdefault" and len(fnode.value.args) == 2
+        ):
+            # d.setdefault(k, default).append(x): in-place update of the entry (created from `default` if absent)
+            dnode = fnode.value.func.value
+            d = self.deopt(self.eval(dnode, st), st, node)
+            if isinstance(d.ty, T.Dict) and not d.is_py:
+                k = self.deopt(self.eval(fnode.value.args[0], st), st, node)
+                dflt = self.eval(fnode.value.args[1], st)
+                s_ = d.ty.sort()
+                has = z3.Select(s_.dom(lift(d)), lift(k, d.ty.k))
+                cur = ops.ite(has, Val(d.ty.v, z3.Select(s_.map(lift(d)), lift(k, d.ty.k))), coerce(dflt, d.ty.v))
+                args = [self.eval(a, st) for a in node.args]
+                nv, res = models.mutate(self, st, cur, fnode.attr, args, {}, node)
+                nd = models.set_item(self, st, d, k, nv, node)
+                self.assign_target(dnode, nd, st, node, mutate=True)
+                self.assumptions_used.add("python-container-semantics")
+                return res
         if isinstance(fnode, ast.Attribute) and fnode.attr in MUTATORS:
             recv = self.eval(fnode.value, st)
             if not isinstance(recv.ty, T.Ref) and not (recv.is_py and recv.ty is PYOBJ and not isinstance(recv.py, (list, dict, set))):
@@ -534,6 +553,7 @@ class Executor(ExprMixin, StmtMixin, LoopMixin):
             res = Val.const(None)
         callee.old_state = pre
         callee.result = res
+        post.env["result"] = res
         post.pc = st.pc
         for nm, e in cc.ensures.items():
             st.assume(z3bool(callee.clause(e, post)))
